@@ -384,21 +384,32 @@ fn is_quiet(s: Signal) -> bool {
     matches!(s, Signal::SIGALRM | Signal::SIGURG | Signal::SIGCHLD | Signal::SIGIO | Signal::SIGVTALRM | Signal::SIGPROF)
 }
 
-fn classification() {
+fn classification<const PENDING: bool>() {
     tracer_env!(wps, tcx, tracer);
     let pid = Pid::from_raw(P8);
     tracer.tracee_ctl.tracee_ensure_mut(pid).status = TraceeStatus::Running;
     tracer.tracee_ctl.tracee_ensure_mut(Pid::from_raw(P7)).status = TraceeStatus::Running;
     let s = any_signal();
+    // another thread may already have a signal waiting for delivery (possibly the same signal number)
+    let pending: bool = PENDING;
+    let s0 = if PENDING { any_signal() } else { Signal::SIGUSR1 };
+    if pending {
+        tracer.inject_signal_queue.push_back((Pid::from_raw(P7), s0));
+    }
+    let before = if pending { 1 } else { 0 };
     let r = tracer.apply_new_status(tcx, WaitStatus::Stopped(pid, s));
     bsv!(matches!(r, Ok(Some(StopReason::SignalStop(p, g))) if p == pid && g == s), "a signal-stop is reported with the receiving thread and the signal");
     let q = &tracer.inject_signal_queue;
     if s == Signal::SIGINT {
-        bsv!(q.is_empty(), "SIGINT is not queued for delivery");
+        bsv!(q.len() == before, "SIGINT is not queued for delivery");
     } else {
-        bsv!(q.len() == 1, "every other signal is queued exactly once");
-        bsv!(matches!(q.front(), Some((p, g)) if *p == pid && *g == s), "queued for the thread that received it");
+        bsv!(q.len() == before + 1, "every other signal is queued exactly once, whatever is already waiting for other threads");
+        bsv!(matches!(q.back(), Some((p, g)) if *p == pid && *g == s), "queued for the thread that received it, behind what was waiting");
     }
+    if pending {
+        bsv!(matches!(q.front(), Some((p, g)) if p.as_raw() == P7 && *g == s0), "what was waiting stays at the front");
+    }
+    kani::cover!(!PENDING || (s0 == s && s != Signal::SIGINT), "the same signal number is already waiting for another thread");
     bsv!(tracer.tracee_ctl.tracee_ensure(pid).status == TraceeStatus::Stopped(StopType::SignalStop(s)), "the thread is recorded as signal-stopped");
     let gs = unsafe { GROUP_STOPS };
     if is_quiet(s) {
@@ -422,12 +433,26 @@ fn classification() {
 //@ tier: quick
 //@ encodes: Tracer::apply_new_status (signal-stop arm), QUIET_SIGNALS, TRANSPARENT_SIGNALS, Tracee::set_stop
 //@ symbolic: the signal (every nix Signal 1..31 except SIGTRAP)
-//@ bounds: one wait status, 2 threads; per-loop bounds (default 3: two threads, two queue entries; log scans 7; signal lists 8)
+//@ bounds: one wait status, 2 threads, empty injection queue (see c10_classification_pending); per-loop bounds (default 3: two threads, two queue entries; log scans 7; signal lists 8)
 //@ oracle: the property's lists: SIGALRM, SIGURG, SIGCHLD, SIGIO, SIGVTALRM, SIGPROF are queued and do not group-stop; SIGINT stops and is not queued; everything else is queued once for the receiving thread and group-stops; always reported as SignalStop(pid, signal)
 //@ stubs: ptrace::getsiginfo -> zeroed siginfo; cut: group_stop_interrupt -> counter
 //@ unwindset: ?bsv_tracer::(count|resumed|injected)=7; ?slice_contains=8; ?Tracer::group_stop_interrupt=4
 //@ timeout: 900
-tracer_harness!(c10_classification, 3, classification());
+tracer_harness!(c10_classification, 3, classification::<false>());
+
+//@ harness: c10_classification_pending
+//@ property: C10
+//@ obligation: H-C10-b
+//@ tier: quick
+//@ encodes: Tracer::apply_new_status (signal-stop arm) with a non-empty injection queue
+//@ symbolic: the signal thread 8 receives; the signal already waiting for thread 7 (both 1..31 except SIGTRAP, possibly equal)
+//@ bounds: one wait status, 2 threads, exactly one entry already waiting (instance); per-loop bounds
+//@ oracle: as c10_classification; in addition the new signal is queued behind the waiting one whatever its number (the same signal number directed at two threads is two deliveries), and the waiting entry is untouched
+//@ stubs: as c10_classification
+//@ unwindset: ?bsv_tracer::(count|resumed|injected)=7; ?slice_contains=8; ?Tracer::group_stop_interrupt=4
+//@ mem_gb: 20
+//@ timeout: 1200
+tracer_harness!(c10_classification_pending, 3, classification::<true>());
 
 fn passthrough() {
     tracer_env!(wps, tcx, tracer);
@@ -538,123 +563,7 @@ fn trap_classify() {
 //@ timeout: 1500
 tracer_harness!(c01_trap_classify, 3, trap_classify());
 
-// ---------------------------------------------------------------------------------------------
-// C01: a temporary breakpoint of ANOTHER thread is hit (absorbed, not reported)
-// ---------------------------------------------------------------------------------------------
-
-const TBASE: usize = 0x40_2000;
-static mut TMEM: [u8; 16] = [0; 16];
-static mut STEP_CALLS: usize = 0;
-static mut BYTE_AT_STEP: u8 = 0;
-static mut BP_OFF: usize = 0;
-
-fn stub_peek(_pid: Pid, addr: *mut std::ffi::c_void) -> nix::Result<nix::libc::c_long> {
-    let a = addr as usize;
-    if a < TBASE || a > TBASE + 8 {
-        return Err(Errno::EIO);
-    }
-    let o = a - TBASE;
-    let mut w: u64 = 0;
-    let mut i = 0;
-    while i < 8 {
-        w |= (unsafe { TMEM[o + i] } as u64) << (8 * i);
-        i += 1;
-    }
-    Ok(w as nix::libc::c_long)
-}
-unsafe fn stub_poke(_pid: Pid, addr: *mut std::ffi::c_void, data: *mut std::ffi::c_void) -> nix::Result<()> {
-    let a = addr as usize;
-    if a < TBASE || a > TBASE + 8 {
-        return Err(Errno::EIO);
-    }
-    let o = a - TBASE;
-    let w = data as usize as u64;
-    let mut i = 0;
-    while i < 8 {
-        unsafe { TMEM[o + i] = (w >> (8 * i)) as u8 };
-        i += 1;
-    }
-    Ok(())
-}
-/// cut: the single step itself (kernel + CPU); records what the thread would execute
-fn stub_single_step(_this: &mut Tracer, _tcx: TraceContext, _pid: Pid) -> Result<Option<StopReason>, Error> {
-    unsafe {
-        STEP_CALLS += 1;
-        BYTE_AT_STEP = TMEM[BP_OFF];
-    }
-    Ok(None)
-}
-
-//@ harness: c01_foreign_temporary_absorbed
-//@ property: C01
-//@ obligation: H-C01-b
-//@ tier: thorough
-//@ encodes: Tracer::apply_new_status (TRAP_BRKPT arm, temporary breakpoint of another thread), Breakpoint::{clone, enable, disable, is_enabled, is_temporary}, Tracee::{pc, set_pc}
-//@ symbolic: the 16 bytes of text around the breakpoint, the breakpoint's offset in its ptrace word (0..8), rsp
-//@ bounds: one trap event; 2 threads; one armed temporary breakpoint owned by thread 7, hit by thread 8; per-loop bounds
-//@ oracle: "never anywhere else": the stop is not reported (Ok(None)), no group stop and nothing queued; "no original instruction skipped or executed twice": pc is rewound onto the instruction, exactly one single step is taken, and at that moment the byte is the ORIGINAL one; afterwards the INT3 is back (the owner can still hit it) and no other byte changed
-//@ stubs: ptrace::read/write -> 16-byte text model; getregs/setregs/getsiginfo; cut: Tracer::single_step -> records the byte the CPU would execute; cut: group_stop_interrupt
-//@ unwindset: ?bsv_tracer::stub_peek=9; ?bsv_tracer::stub_poke=9; ?ptrace::read=9; ?ptrace::write=9; ?Tracer::group_stop_interrupt=4; ?c01_foreign=18
-//@ timeout: 2400
-//@ mem_gb: 32
-#[kani::proof]
-#[kani::stub(Tracer::group_stop_interrupt, stub_group_stop)]
-#[kani::stub(Tracer::single_step, stub_single_step)]
-#[kani::stub(nix::sys::ptrace::read, stub_peek)]
-#[kani::stub(nix::sys::ptrace::write, stub_poke)]
-#[kani::stub(nix::sys::ptrace::getregs, stub_getregs)]
-#[kani::stub(nix::sys::ptrace::setregs, stub_setregs)]
-#[kani::stub(nix::sys::ptrace::getsiginfo, stub_getsiginfo)]
-#[kani::stub(std::hash::RandomState::new, fixed_random_state)]
-#[kani::stub(std::backtrace::Backtrace::capture, no_backtrace)]
-#[kani::unwind(3)]
-fn c01_foreign_temporary_absorbed() {
-    reset();
-    let text: [u8; 16] = kani::any();
-    let off: usize = kani::any();
-    kani::assume(off < 8);
-    kani::assume(text[off] != 0xCC);
-    unsafe {
-        TMEM = text;
-        STEP_CALLS = 0;
-        BP_OFF = off;
-        SI_CODE = code::TRAP_BRKPT;
-    }
-    let addr = (TBASE + off) as u64;
-    let tmp = Breakpoint::new_temporary(PathBuf::new(), RelocatedAddress::from(addr), Pid::from_raw(P7));
-    let armed = tmp.enable();
-    bsv!(armed.is_ok() && unsafe { TMEM[off] } == 0xCC, "the temporary breakpoint is armed");
-    let mut regs: user_regs_struct = unsafe { std::mem::zeroed() };
-    regs.rip = addr + 1;
-    let rsp: u64 = kani::any();
-    regs.rsp = rsp;
-    unsafe { REGS = Some(regs) };
-    let bps = [&tmp];
-    let wps = WatchpointRegistry::default();
-    let tcx = TraceContext::new(&bps, &wps);
-    let mut tracer = Tracer::new_external(Pid::from_raw(P7), &[Pid::from_raw(P7), Pid::from_raw(P8)]);
-    tracer.tracee_ctl.tracee_ensure_mut(Pid::from_raw(P8)).status = TraceeStatus::Running;
-    let r = tracer.apply_new_status(tcx, WaitStatus::Stopped(Pid::from_raw(P8), Signal::SIGTRAP));
-    bsv!(matches!(r, Ok(None)), "a temporary breakpoint of another thread does not stop the program");
-    bsv!(unsafe { GROUP_STOPS } == 0 && tracer.inject_signal_queue.is_empty(), "no group stop, nothing queued");
-    let now = unsafe { REGS.unwrap() };
-    bsv!(now.rip == addr && now.rsp == rsp, "pc is rewound onto the original instruction, nothing else changes");
-    bsv!(unsafe { STEP_CALLS } == 1, "the original instruction is executed exactly once");
-    bsv!(unsafe { BYTE_AT_STEP } == text[off], "and it is the original byte that is executed, not the INT3");
-    let m = unsafe { TMEM };
-    let mut i = 0;
-    while i < 16 {
-        if i == off {
-            bsv!(m[i] == 0xCC, "the breakpoint is armed again for its owner");
-        } else {
-            bsv!(m[i] == text[i], "no other byte of text changes");
-        }
-        i += 1;
-    }
-    kani::cover!(off == 7, "breakpoint in the last byte of its word");
-    kani::cover!(true, "BSV-END");
-    std::mem::forget((r, armed));
-    std::mem::forget(tracer);
-    std::mem::forget(wps);
-    std::mem::forget(tmp);
-}
+// NOTE: the "absorbed" path of the TRAP_BRKPT arm (a temporary breakpoint of another thread: clone, disable, single step,
+// re-enable) is not decided: with ptrace read/write, getregs/setregs and single_step stubbed it still ran out of memory at
+// 12 GB and at 32 GB (the error paths of Breakpoint::disable/enable build io::Error / Backtrace values whose drop glue
+// CBMC expands); DESIGN 11.2.
